@@ -57,8 +57,12 @@ int CPPPreprocessor::get_preprocessor_command(int c, std::string &command) {
   }
   return ' ';
 }
-int CPPPreprocessor::get_preprocessor_args(int c, std::string &args) { args = "A"; g_cur = g_i; g_i++; g_sub = 0; return '\n'; }
-CPPFile CPPPreprocessor::get_file() const { static CPPFile f; return f; }
+// ghost: which file is current.  Reading the arguments of a directive to the end of the line may reach the end of the file,
+// which pops it: afterwards another file (the includer, or none) is current
+static int g_file_tag; static bool vin_args_end_the_file;
+int CPPPreprocessor::get_preprocessor_args(int c, std::string &args) { args = "A"; g_cur = g_i; g_i++; g_sub = 0; if (vin_args_end_the_file) g_file_tag++; return '\n'; }
+CPPFile CPPPreprocessor::get_file() const { static CPPFile f; f._source = (CPPFile::Source)g_file_tag; return f; }
+static int g_loc_file_tag = -1;
 int CPPPreprocessor::get_line_number() const { return 1; }
 int CPPPreprocessor::get_col_number() const { return 1; }
 CPPFile::CPPFile(const Filename &filename, const Filename &filename_as_referenced, Source source) : _source(source), _pragma_once(false) {}
@@ -67,7 +71,7 @@ void CPPPreprocessor::warning(const std::string &message, const YYLTYPE &loc) co
 void CPPPreprocessor::error(const std::string &message) const {}
 void CPPPreprocessor::error(const std::string &message, const YYLTYPE &loc) const {}
 // directives with an effect: the stub records that the directive was acted upon
-void CPPPreprocessor::handle_define_directive(const std::string &args, const YYLTYPE &loc) { g_effect[g_cur] = true; }
+void CPPPreprocessor::handle_define_directive(const std::string &args, const YYLTYPE &loc) { g_effect[g_cur] = true; g_loc_file_tag = loc.file._source; }
 void CPPPreprocessor::handle_undef_directive(const std::string &args, const YYLTYPE &loc) { g_effect[g_cur] = true; }
 void CPPPreprocessor::handle_include_directive(const std::string &args, const YYLTYPE &loc) { g_effect[g_cur] = true; }
 void CPPPreprocessor::handle_pragma_directive(const std::string &args, const YYLTYPE &loc) { g_effect[g_cur] = true; }
@@ -236,12 +240,14 @@ void h_process_directive() {
   any_sequence();
   __CPROVER_assume(vin_items[0].kind != K_TEXT);
   g_onestep = true; g_sub = 1;
+  g_file_tag = 1; vin_args_end_the_file = nondet_bool(); g_loc_file_tag = -1;
   g_pp.process_directive('#');
   int kd = vin_items[0].kind;
   OBL(g_i == 1, "C09.process_directive: exactly the directive line is consumed");
   if (is_opener(kd)) OBL(g_called_kind == kd && g_called_item == 0 && !g_skip_called && !g_effect[0], "C09.process_directive: #if/#ifdef/#ifndef go to their handler");
   else if (kd == K_ELSE || is_elif(kd)) OBL(g_skip_called && g_skip_arg == false && g_called_kind == -1 && !g_effect[0], "C09.process_directive: #else/#elif* reached in a kept group skip to the #endif without evaluating anything (at most one group per conditional)");
   else if (kd == K_ENDIF) OBL(!g_skip_called && g_called_kind == -1 && !g_effect[0], "C09.process_directive: #endif has no effect");
-  else OBL(g_effect[0] && !g_skip_called && g_called_kind == -1, "C09.process_directive: other directives are acted upon");
+  else { OBL(g_effect[0] && !g_skip_called && g_called_kind == -1, "C09.process_directive: other directives are acted upon");
+    OBL(g_loc_file_tag == 1, "C09.process_directive: a directive is attributed to the file it stands in (the file current when its # was read), also when it is the last line of that file (a #define ending a system header stays the system header's)"); }
   VU_REACHED();
 }
